@@ -103,8 +103,8 @@ w("C06", "pandas dataframe checks lose their fence", BP + "container.py",
 w("C06", "config_context restores outside finally", "pandera/config.py",
   "        yield\n    finally:\n        reset_config_context(_outer_config_ctx)", "        yield\n    finally:\n        pass\n    reset_config_context(_outer_config_ctx)")
 w("C06", "new undocumented raise in strict_filter_columns", BP + "container.py",
-  "        if not (schema.strict or schema.ordered):\n            return check_obj\n\n        filter_out_columns = []",
-  "        if not (schema.strict or schema.ordered):\n            return check_obj\n        if not column_info.destuttered_column_names:\n            raise KeyError(\"no columns\")\n\n        filter_out_columns = []")
+  "        if not (schema.strict or schema.ordered):\n            return check_obj\n\n        # strictness and order are schema-level constraints",
+  "        if not (schema.strict or schema.ordered):\n            return check_obj\n        if not column_info.destuttered_column_names:\n            raise KeyError(\"no columns\")\n\n        # strictness and order are schema-level constraints")
 w("C06", "MultiIndex error rewrite assumes frames", BP + "components.py",
   "                if is_table(schema_error.failure_cases):\n                    failure_cases = schema_error.failure_cases.assign(\n                        column=schema_error.schema.name\n                    )\n                else:\n                    failure_cases = schema_error.failure_cases",
   "                failure_cases = schema_error.failure_cases.assign(\n                    column=schema_error.schema.name\n                )")
@@ -127,7 +127,7 @@ w("C08", "polars in_range swaps include flags", BL + "builtin_checks.py",
 w("C08", "polars str_length closed on one side", BL + "builtin_checks.py", "n_chars.is_between(min_value, max_value)", 'n_chars.is_between(min_value, max_value, closed="left")')
 w("C08", "polars add_missing_columns ignores nullable", BL + "container.py",
   "if col_schema.default is None and not col_schema.nullable:", "if col_schema.default is None:")
-w("C08", "polars strict test loosened", BL + "container.py", "if schema.strict is True and not is_schema_col:", "if schema.strict and not is_schema_col:")
+w("C08", "polars strict test loosened", BL + "container.py", "if schema_level and schema.strict is True and not is_schema_col:", "if schema_level and schema.strict and not is_schema_col:")
 w("C08", "signature default drift", BL + "builtin_checks.py", "    include_min: bool = True,\n    include_max: bool = True,\n) -> pl.LazyFrame:", "    include_min: bool = True,\n    include_max: bool = False,\n) -> pl.LazyFrame:")
 w("C08", "twin: polars ge via not lt is avoided; use reordered and_", BL + "builtin_checks.py",
   "return data.lazyframe.select(is_in_min.and_(is_in_max))", "return data.lazyframe.select(is_in_max.and_(is_in_min))", "twin")
@@ -342,8 +342,8 @@ w("C02", "polars scalar failure case not cast to string again", BL + "base.py",
   "                        \"failure_case\": pl.Utf8,\n                        \"check_number\": pl.Int32,\n                        \"column\": pl.String,\n                        \"index\": pl.Int32,\n                    }\n                )\n\n            failure_case_collection.append",
   "                        \"check_number\": pl.Int32,\n                        \"column\": pl.String,\n                        \"index\": pl.Int32,\n                    }\n                )\n\n            failure_case_collection.append")
 w("C07", "class namespace iterated live again", "pandera/api/dataframe/model.py",
-  "            for attr_name, attr_value in list(vars(base).items()):\n                check_info = getattr(attr_value, key, None)",
-  "            for attr_name, attr_value in vars(base).items():\n                check_info = getattr(attr_value, key, None)")
+  "            for attr_name, attr_value in list(vars(base).items()):\n                # a name hides the same name in the bases, whatever it is\n                # bound to (as attribute lookup does)\n                if attr_name in method_names:  # overridden by subclass\n                    continue\n                method_names.add(attr_name)\n                check_info",
+  "            for attr_name, attr_value in vars(base).items():\n                # a name hides the same name in the bases, whatever it is\n                # bound to (as attribute lookup does)\n                if attr_name in method_names:  # overridden by subclass\n                    continue\n                method_names.add(attr_name)\n                check_info")
 w("C09", "polars Decimal.check asserts the kind again", "pandera/engines/polars_engine.py",
   "        if not isinstance(pandera_dtype, Decimal):\n            # a data type of another kind is not a decimal\n            return False\n",
   "        assert isinstance(pandera_dtype, Decimal), \"expected Decimal\"\n")
